@@ -65,6 +65,8 @@ def check(ctx):
     # holds at dispatch time, or dangles once it is gone
     for tu in ctx.tus:
         check_adapter_casts(ctx, tu)
+        from .listrules import check_invoked_in_place
+        check_invoked_in_place(ctx, tu, 'C12.F3', lambda o: o.cls in ('MixinFilter', 'MixinHeterFilter', 'ConditionalFunctor', 'ArgumentAdapter'))
         for key in ('ConditionalFunctor', 'ArgumentAdapter'):
             for c in tu.classes_by_key.get(key, []):
                 bad = []
@@ -84,6 +86,7 @@ def check(ctx):
     ctx.require_min('C12.F5', 2)
     import os
     from .. import witness, extract
+    witness.check_static_unit(ctx, 'C12.F4', os.path.join(extract.VERIF, 'witness', 's_meta.cpp'), 'canContinueInvoking detection, mixin selection and nesting', tag='C12')
     witness.check_static_unit(ctx, 'C12.F4', os.path.join(extract.VERIF, 'witness', 's_select.cpp'), 'canContinueInvoking / mixin policy selection', tag='C12')
 
 
